@@ -2,6 +2,7 @@
 frameworks' own introspection APIs.  Uses only ast / typing / attrs / dataclasses / pydantic.v1 public calls."""
 import ast
 import dataclasses
+import os
 import itertools
 import sys
 import types
@@ -93,11 +94,12 @@ def classes_of(mod):
 
 
 def hints(mod, info: ClassInfo):
-    """evaluate the class's own annotations in its scope: module globals + enclosing class namespaces
-    (innermost last).  A throw-away holder class is used so that typing.get_type_hints (public API) does not
+    """evaluate the class's own annotations in its scope: module globals + the class's own namespace (what
+    typing.get_type_hints(cls) itself uses; enclosing class bodies are not a scope in Python).  A throw-away holder class is used so that typing.get_type_hints (public API) does not
     walk the framework base classes."""
     localns = {}
-    for c in info.chain + [info.cls]:
+    strict = os.environ.get("J2M_VERIF_STRICT_SCOPE", "1") == "1"
+    for c in ([] if strict else info.chain) + [info.cls]:
         localns.update({k: v for k, v in vars(c).items() if isinstance(v, type)})
     anns = dict(vars(info.cls).get("__annotations__", {}))
     holder = type("_Holder", (), {"__annotations__": anns})
@@ -108,9 +110,11 @@ def update_forward_refs(mod, table):
     import pydantic.v1 as pv1
     for info in table.values():
         if issubclass(info.cls, pv1.BaseModel):
-            localns = {}
-            for c in info.chain + [info.cls]:
-                localns.update({k: v for k, v in vars(c).items() if isinstance(v, type)})
+            # scope of an annotation = module globals + the namespace of the class that carries it (class bodies do not nest scopes)
+            localns = {k: v for k, v in vars(info.cls).items() if isinstance(v, type)}
+            if os.environ.get("J2M_VERIF_STRICT_SCOPE", "1") != "1":
+                for c in info.chain:
+                    localns.update({k: v for k, v in vars(c).items() if isinstance(v, type)})
             info.cls.update_forward_refs(**localns)
 
 
